@@ -62,8 +62,12 @@ func isStoreVal(target, val string) func(Site) bool {
 }
 
 func propC04(c *Ctx) {
-	c.Explanation = "Decides structural necessary conditions of window/MSS discipline for all inputs: (N1) the window field written by sendTCP is a lossless conversion: the receive window is clamped to 0xffff before uint16() (interval analysis); (N2) the advertised right edge rcvAcc moves only forward: its only store outside the constructor is guarded by rcvAcc.LessThan(new) and stores exactly that new value, and the advertisement is (rcvAcc-rcvNxt) >> rcvWndScale; (N3) maxPayloadSize only shrinks, is at least 1, and is computed as MTU - TCP header - the largest option block the stack can send (timestamps and maximum SACK blocks) - so a full segment with options never exceeds the MTU; (N4) the peer's window is scaled before the sender sees it: in handleSegments `s.window <<= sndWndScale` precedes both handleRcvdSegment calls on the ACK branch, and the sender copies seg.window into sndWnd; (N5) sendData sends data only when the segment starts before sndUna+sndWnd, and splits exactly at min(room in the window, maxPayloadSize) (site table shared with C01); (N6) acceptable() computes RFC 793's acceptability table over sequence-space primitives; in-window data is delivered (C01/R3); zero-window detection compares (rcvBufSize-rcvBufUsed)>>scale with 0. (N8) the receive window scale in force is 0 exactly when the peer's SYN carried no window-scale option (recorded as -1) and the announced shift otherwise - a peer shift of 0 still enables scaling - and the established receiver takes exactly that value. (N7) zero-window handling: the immediate window update after the application reads is sent exactly when the SCALED window last advertised ((rcvAcc-rcvNxt) >> rcvWndScale, the expression getSendParams returns) was zero; Read notifies the worker exactly when the scaled free space was zero before the bytes left the buffer and is non-zero afterwards; the worker calls nonZeroWindow on that notification bit. (N6s) the window primitives acceptable and sendData are written in (InWindow, Overlap, Add, Size, LessThanEq) equal their definitions for all operands (evaluator shared with C14/S1). (N3m) the MTU chain (link MTU - network header, capped; header room), FindWndScale and the SYN-cookie MSS encoder (largest table entry not above the peer's MSS). NOT decided: the inequality 'bytes in flight <= offered window' over histories of ACKs (needs the sizes of heap-allocated views across calls); the arithmetic of the primitives is C14."
+	c.Explanation = "Decides structural necessary conditions of window/MSS discipline for all inputs: (N1) the window field written by sendTCP is a lossless conversion: the receive window is clamped to 0xffff before uint16() (interval analysis); (N2) the advertised right edge rcvAcc moves only forward: its only store outside the constructor is guarded by rcvAcc.LessThan(new) and stores exactly that new value, and the advertisement is (rcvAcc-rcvNxt) >> rcvWndScale; (N3) maxPayloadSize only shrinks, is at least 1, and is computed as MTU - TCP header - the largest option block the stack can send (timestamps and maximum SACK blocks) - so a full segment with options never exceeds the MTU; (N4) the peer's window is scaled before the sender sees it: in handleSegments `s.window <<= sndWndScale` precedes both handleRcvdSegment calls on the ACK branch, and the sender copies seg.window into sndWnd; (N5) sendData sends data only when the segment starts before sndUna+sndWnd, and splits exactly at min(room in the window, maxPayloadSize) (site table shared with C01); (N6) acceptable() computes RFC 793's acceptability table over sequence-space primitives; in-window data is delivered (C01/R3); zero-window detection compares (rcvBufSize-rcvBufUsed)>>scale with 0. (N8) the receive window scale in force is 0 exactly when the peer's SYN carried no window-scale option (recorded as -1) and the announced shift otherwise - a peer shift of 0 still enables scaling - and the established receiver takes exactly that value. (N7) zero-window handling: the immediate window update after the application reads is sent exactly when the SCALED window last advertised ((rcvAcc-rcvNxt) >> rcvWndScale, the expression getSendParams returns) was zero; Read notifies the worker exactly when the scaled free space was zero before the bytes left the buffer and is non-zero afterwards; the worker calls nonZeroWindow on that notification bit. (N6s) the window primitives acceptable and sendData are written in (InWindow, Overlap, Add, Size, LessThanEq) equal their definitions for all operands (evaluator shared with C14/S1). (N3m) the MTU chain (link MTU - network header, capped; header room), FindWndScale and the SYN-cookie MSS encoder (largest table entry not above the peer's MSS). (N9) the TCP window, sequence and acknowledgement fields are read from exactly the RFC 793 bits (shared with C15/B1). (N10) a smaller path MTU lowers the payload size, corrects the in-flight count, resumes at the first oversized segment and sends; (N11) the window update travels with the ACK sent at the end of every batch that advanced rcvNxt. (N12) the first send window is the peer's window, scaled only when it did not come in a SYN (shared with C03/H3). NOT decided: the inequality 'bytes in flight <= offered window' over histories of ACKs (needs the sizes of heap-allocated views across calls); the arithmetic of the primitives is C14."
 	an := NewAbsint(c.P)
+	n9 := c.Rule("N9", "K9 bitprov (shared with C15/B1)", "the TCP window, sequence and acknowledgement fields are read from exactly the RFC 793 bits", 3)
+	c.fieldAccessorLayouts(n9, &bitprov{p: c.P}, func(f fieldLayout) bool {
+		return f.Typ == "TCP" && (f.Field == "Window" || f.Field == "SequenceNumber" || f.Field == "AckNumber")
+	})
 	n1 := c.Rule("N1", "K8 narrowing", "window field conversion is lossless", 1)
 	if fn := c.Fn(n1, "tcp.sendTCP"); fn != nil {
 		a := an.get(fn)
@@ -285,6 +289,9 @@ func propC04(c *Ctx) {
 		c.Check(k.ExactString() == "1", n7, "const:tcp.notifyNonZeroReceiveWindow", "", "bit 1, the bit tested in the main loop", "notifyNonZeroReceiveWindow = "+k.ExactString()+" but the main loop tests bit 1")
 	}
 
+	mtuShrinkRule(c, c.Rule("N10", "K7 exact-guard site table", "a smaller path MTU lowers the payload size, corrects the in-flight count, resumes at the first oversized segment and sends", 4))
+	ackGenerationRule(c, c.Rule("N11", "K7 exact-guard site table (shared with C02/W12)", "the window update travels with the ACK sent at the end of every batch that advanced rcvNxt", 2))
+	handshakeWindowRule(c, c.Rule("N12", "K7 exact-guard site table (shared with C03/H3)", "the first send window is the peer's window, scaled only when it did not come in a SYN", 2))
 	n8 := c.Rule("N8", "K7 exact-guard site tables + K3 closed call sites", "window-scale negotiation: own scale used only if the peer offered one (any value, including 0)", 8)
 	if fn := c.Fn(n8, "(*tcp.handshake).effectiveRcvWndScale"); fn != nil {
 		c.CheckSites(n8, fn, []SiteSpec{
@@ -309,7 +316,7 @@ func propC04(c *Ctx) {
 }
 
 func propC05(c *Ctx) {
-	c.Explanation = "The timing clauses (200 ms, doubling in time, one segment per timeout while the peer is silent, bounds on segments in flight as a function of the ACK history) are about wall-clock behaviour / numeric histories and are NOT decided. Decided (for all inputs): (L1) the constants InitialCwnd = 10, nDupAckThreshold = 3, minRTO = 200ms; (L2) the RTO store discipline: updateRTO's computed value is followed by the clamp to minRTO, a timer expiry stores exactly 2*rto (below the 60 s cap), and the retransmission timer is armed with rto; (L3) the data send loop runs only while outstanding < sndCwnd and counts every data segment sent; (L4) on a retransmission timeout fast recovery is left BEFORE the congestion controller collapses the window, every controller's HandleRTOExpired stores cwnd = 1, outstanding is reset and sending restarts from the head of the write list, in that order; (L5) duplicate-ACK counting: the complete reviewed site table of checkDuplicateAck (a duplicate is an ACK of sndUna with nothing new, same window, no data, while data is outstanding; the third one enters fast recovery after halving ssthresh; partial/complete ACKs during recovery), a true result leads to resendSegment, which retransmits the head of the write list; the NewReno recover point fr.last starts at iss in newSender (RFC 6582 3.2 step 1), is sndNxt-1 on entering/leaving recovery and on a timeout, and is stored nowhere else; (L6) the lazily disabled retransmission timer is a three-state machine (disabled/enabled/orphaned) whose state word is written only by its own four methods with exactly the reviewed transitions: a wake-up while orphaned is consumed into disabled, enable always re-arms the runtime timer when the state is disabled (or the pending wake-up would come too late) and ends enabled, disable orphans an armed timer, expiry is reported only at or after the target, and the runtime timer's callback asserts the waker given to init. (L7) the Reno controller: slow start +acked capped at ssthresh, congestion avoidance +1 per full window, ssthresh = max(flight/2,2), Reno is the default, Update gets (flight before - flight after) outside fast recovery only, sndCwnd is stored only by the reviewed functions; newSender starts with cwnd 10, ssthresh unbounded, RTO 1 s."
+	c.Explanation = "The timing clauses (200 ms, doubling in time, one segment per timeout while the peer is silent, bounds on segments in flight as a function of the ACK history) are about wall-clock behaviour / numeric histories and are timer.enable reprograms the runtime timer whenever the new target is earlier than the programmed one (L6, earlier-target-rearms). (L8) the RTT estimator behind the timeout follows RFC 6298 (and RFC 7323 appendix G with timestamps), retransmitted ranges are never sampled (Karn), the recovery point after a timeout is sndNxt-1 and an idle connection restarts from the initial window; (L9) Reno is the controller unless cubic is asked for by name. (L10) every queued segment, bare ACKs included, counts towards the inbound queue being non-empty, so duplicate ACKs left behind a batch re-arm the worker. NOT decided. Decided (for all inputs): (L1) the constants InitialCwnd = 10, nDupAckThreshold = 3, minRTO = 200ms; (L2) the RTO store discipline: updateRTO's computed value is followed by the clamp to minRTO, a timer expiry stores exactly 2*rto (below the 60 s cap), and the retransmission timer is armed with rto; (L3) the data send loop runs only while outstanding < sndCwnd and counts every data segment sent; (L4) on a retransmission timeout fast recovery is left BEFORE the congestion controller collapses the window, every controller's HandleRTOExpired stores cwnd = 1, outstanding is reset and sending restarts from the head of the write list, in that order; (L5) duplicate-ACK counting: the complete reviewed site table of checkDuplicateAck (a duplicate is an ACK of sndUna with nothing new, same window, no data, while data is outstanding; the third one enters fast recovery after halving ssthresh; partial/complete ACKs during recovery), a true result leads to resendSegment, which retransmits the head of the write list; the NewReno recover point fr.last starts at iss in newSender (RFC 6582 3.2 step 1), is sndNxt-1 on entering/leaving recovery and on a timeout, and is stored nowhere else; (L6) the lazily disabled retransmission timer is a three-state machine (disabled/enabled/orphaned) whose state word is written only by its own four methods with exactly the reviewed transitions: a wake-up while orphaned is consumed into disabled, enable always re-arms the runtime timer when the state is disabled (or the pending wake-up would come too late) and ends enabled, disable orphans an armed timer, expiry is reported only at or after the target, and the runtime timer's callback asserts the waker given to init. (L7) the Reno controller: slow start +acked capped at ssthresh, congestion avoidance +1 per full window, ssthresh = max(flight/2,2), Reno is the default, Update gets (flight before - flight after) outside fast recovery only, sndCwnd is stored only by the reviewed functions; newSender starts with cwnd 10, ssthresh unbounded, RTO 1 s."
 	l1 := c.Rule("L1", "K12 constants", "RFC 5681 / 6298 constants", 3)
 	for _, k := range []struct{ name, want, what string }{{"InitialCwnd", "10", "initial window of 10 segments"}, {"nDupAckThreshold", "3", "three duplicate ACKs"}, {"minRTO", "200000000", "200 ms RTO floor"}} {
 		v := pkgConst(c.P, "protocol/transport/tcp", k.name)
@@ -453,6 +460,9 @@ func propC05(c *Ctx) {
 	// L7: the default (Reno) controller - the property bounds the flight by
 	// 10 + one per acknowledged segment / duplicate ACK, which holds only if the
 	// window grows by at most the number of acknowledged packets.
+	rttEstimatorRule(c, c.Rule("L8", "K7 exact-guard site tables", "the RTT estimator behind the retransmission timeout (RFC 6298 / RFC 7323 G), Karn's rule, the post-timeout recovery point and the idle restart of the window", 13))
+	congestionChoiceRule(c, c.Rule("L9", "K7 closed return table", "Reno is the controller unless cubic is asked for by name", 2))
+	segmentQueueRule(c, c.Rule("L10", "K7 closed site tables (shared with C02/W15, C01/R14)", "every queued segment, bare ACKs included, counts towards the queue being non-empty: duplicate ACKs left behind a batch re-arm the worker", 7))
 	l7 := c.Rule("L7", "K9 site tables (closed, exact guards)", "Reno: window growth per ACK, ssthresh reduction, default controller selection", 14)
 	rs := "(*tcp.renoState)."
 	if fn := c.Fn(l7, rs+"updateSlowStart"); fn != nil {
@@ -565,6 +575,18 @@ func timerTypestateRule(c *Ctx, l6 string) {
 				}
 			}
 			c.Check(stDis != nil && stDis.From.Succs[stDis.Succ] == ci.Block(), l6, FuncName(fn)+"/disabled-always-rearms", c.pos(ci), "state == disabled leads straight to the re-arm", "a disabled timer can be enabled without arming the runtime timer: it never fires")
+			// ... and so does "the new target is earlier than what the pending runtime
+			// timer was armed for": otherwise a shortened timeout (RTO shrinking from
+			// the initial 1 s to 200 ms, the end of a back-off) fires at the stale,
+			// later deadline
+			var earlier *Edge
+			for _, e := range CondEdges(fn) {
+				if termEq(e.Atom, "time.Time.Before($0.target@1, $0.runtimeTarget)") && e.Holds {
+					ee := e
+					earlier = &ee
+				}
+			}
+			c.Check(earlier != nil && earlier.From.Succs[earlier.Succ] == ci.Block(), l6, FuncName(fn)+"/earlier-target-rearms", c.pos(ci), "target earlier than the pending runtime target leads straight to the re-arm", "an enabled (or orphaned) timer whose new target is earlier than the pending runtime target is not re-armed: the timeout fires at the stale, later deadline")
 		}
 	}
 	if fn := c.Fn(l6, tm+"init"); fn != nil {
